@@ -237,12 +237,13 @@ theorem binOp_errR (o : BinOp) (n1 n2 : Str) (v : Val N) (k : ErrKind) (s : Str)
     Impl.binOp G o n1 n2 (.val v) (.err k s p) = .err k s p := by
   cases o <;> simp [Impl.binOp, Impl.numOp, Impl.cmpOp, Impl.strOp, Impl.genOp, Impl.boolOp, Impl.listOp, Impl.likeOp]
 
-theorem binOp_val (o : BinOp) (n1 n2 : Str) (v1 v2 : Val N) :
+theorem binOp_val (o : BinOp) (n1 n2 : Str) (v1 v2 : Val N)
+    (hr : ∀ a b, o = .modint → v1 = .num a → v2 = .num b → (G.C.inInt64 a && G.C.inInt64 b) = true) :
     Impl.binOp G o n1 n2 (.val v1) (.val v2) = (Spec.binSem G o n1 n2 v1 v2).quirk := by
   cases o <;> cases v1 <;> cases v2 <;>
     simp [Impl.binOp, Impl.numOp, Impl.cmpOp, Impl.strOp, Impl.genOp, Impl.boolOp, Impl.listOp, Impl.likeOp,
       Impl.modOp, Spec.binSem, Spec.arith, Spec.compare, Spec.logic, Spec.member, Out.quirk, quirkNode] <;>
-    (try split) <;> simp [Out.quirk, quirkNode]
+    (try split) <;> simp_all [Out.quirk, quirkNode]
 
 theorem preOp_val (p : PreOp) (n : Str) (v : Val N) :
     Impl.preOp G.C p n (.val v) = (Spec.preSem G.C p n v).quirk := by
@@ -260,32 +261,44 @@ def quirkE : ErrKind × Str × Option Nat → ErrKind × Str × Option Nat
 
 mutual
 /-- evaluation as the interpreter does it = the reference semantics, except for the node an
-    error about the right operand of and/or/in/notin is attached to (`Out.quirk`) -/
-theorem eval_eq_quirk_spec : ∀ (e : Expr), Impl.eval G e = (Spec.eval G e).quirk
-  | .atom a => by simp [Impl.eval, Spec.eval, Out.quirk]
-  | .list its => by
-    simp only [Impl.eval, Spec.eval, evalItems_eq its]
+    error about the right operand of and/or/in/notin is attached to (`Out.quirk`) — for trees
+    whose `%` operands stay inside the int64 range -/
+theorem eval_eq_quirk_spec : ∀ (e : Expr), Spec.modInRange G e = true → Impl.eval G e = (Spec.eval G e).quirk
+  | .atom a, _ => by simp [Impl.eval, Spec.eval, Out.quirk]
+  | .list its, h => by
+    simp only [Spec.modInRange] at h
+    simp only [Impl.eval, Spec.eval, evalItems_eq its h]
     cases Spec.evalItems G its with
     | ok vs => simp [Out.quirk, Except.mapError]
     | error x => obtain ⟨k, s, p⟩ := x; simp [Out.quirk, Except.mapError, quirkE]
-  | .bin o t l r => by
-    simp only [Impl.eval, Spec.eval, eval_eq_quirk_spec l, eval_eq_quirk_spec r]
+  | .bin o t l r, h => by
+    simp only [Spec.modInRange, Bool.and_eq_true] at h
+    obtain ⟨⟨hl', hr'⟩, hm⟩ := h
+    simp only [Impl.eval, Spec.eval, eval_eq_quirk_spec l hl', eval_eq_quirk_spec r hr']
     cases hl : Spec.eval G l with
     | err k s p => simp [Out.quirk, binOp_errL]
     | val v1 =>
       cases hr : Spec.eval G r with
       | err k s p => simp [Out.quirk, binOp_errR]
-      | val v2 => simp [Out.quirk, binOp_val]
-  | .pre p t x => by
-    simp only [Impl.eval, Spec.eval, eval_eq_quirk_spec x]
+      | val v2 =>
+        simp only [Out.quirk]
+        apply binOp_val
+        intro a b ho h1 h2
+        subst ho h1 h2
+        simpa [hl, hr] using hm
+  | .pre p t x, h => by
+    simp only [Spec.modInRange] at h
+    simp only [Impl.eval, Spec.eval, eval_eq_quirk_spec x h]
     cases Spec.eval G x with
     | err k s q => simp [Out.quirk, preOp_err]
     | val v => simp [Out.quirk, preOp_val]
 /-- the list literal: as the reference, with the errors of the elements as the code attaches them -/
-theorem evalItems_eq : ∀ (its : Items), Impl.evalItems G its = (Spec.evalItems G its).mapError quirkE
-  | .nil => by simp [Impl.evalItems, Spec.evalItems, Except.mapError]
-  | .cons e rest => by
-    simp only [Impl.evalItems, Spec.evalItems, eval_eq_quirk_spec e, evalItems_eq rest]
+theorem evalItems_eq : ∀ (its : Items), Spec.modInRangeItems G its = true →
+    Impl.evalItems G its = (Spec.evalItems G its).mapError quirkE
+  | .nil, _ => by simp [Impl.evalItems, Spec.evalItems, Except.mapError]
+  | .cons e rest, h => by
+    simp only [Spec.modInRangeItems, Bool.and_eq_true] at h
+    simp only [Impl.evalItems, Spec.evalItems, eval_eq_quirk_spec e h.1, evalItems_eq rest h.2]
     cases Spec.eval G e with
     | err k s p => simp [Out.quirk, Except.mapError, quirkE]
     | val v =>
@@ -297,25 +310,29 @@ end
 theorem core_quirk (o : Out N) : o.quirk.core = o.core := by
   cases o <;> rfl
 
-/- Full statement (FALSE for the code as it is — known finding `error-node-left-operand`):
+/- Full statement (FALSE for the code as it is — two known findings):
      `hasAssign e = false → Impl.eval G e = Spec.eval G e`.
-   It fails exactly where `Out.quirk` is not the identity: `true and 5`, `1 in 5` attach the
-   error naming operand 1 to child 0 (pinned by the existing test TestOperatorRuntimeErrors).
-   Proved: equality of value / error kind / named operand (`eval_refines_spec_partial`) and the
-   exact equation with the deviation spelled out (`eval_eq_quirk_spec`). -/
-/-- C03 (semantics): for every tree without assignment, every environment, numeric carrier
-    and regular-expression oracle, evaluation as the interpreter does it (helper functions,
-    evaluation order, comparison falling back to text on ANY error of the numeric attempt,
-    both operands of and/or evaluated) yields the value, or the error kind and the named
-    operand, of the per-operator reference semantics. -/
-theorem eval_refines_spec_partial (e : Expr) (_h : hasAssign e = false) :
+   It fails (1) where `Out.quirk` is not the identity: `true and 5`, `1 in 5` attach the error
+   naming operand 1 to child 0 (`error-node-left-operand`, pinned by TestOperatorRuntimeErrors);
+   (2) where `%` gets an operand outside the int64 range: `1e+308 % 3`, `(1/0) % 2`
+   (`mod-out-of-int64-range`: the result is the platform's float→int64 conversion's).
+   Proved: for trees whose `%` operands stay in range, equality of value / error kind / named
+   operand (`eval_refines_spec_partial`) and the exact equation with deviation (1) spelled out
+   (`eval_eq_quirk_spec`). -/
+/-- C03 (semantics): for every tree without assignment whose `%` operands stay inside the int64
+    range, every environment, numeric carrier and regular-expression oracle, evaluation as the
+    interpreter does it (helper functions, evaluation order, comparison falling back to text on
+    ANY error of the numeric attempt, both operands of and/or evaluated) yields the value, or the
+    error kind and the named operand, of the per-operator reference semantics. (The reference was
+    written from the language reference AND the code; arithmetic is the abstract carrier's.) -/
+theorem eval_refines_spec_partial (e : Expr) (_h : hasAssign e = false) (hm : Spec.modInRange G e = true) :
     (Impl.eval G e).core = (Spec.eval G e).core := by
-  rw [eval_eq_quirk_spec, core_quirk]
+  rw [eval_eq_quirk_spec G e hm, core_quirk]
 
 /-- … and values are exactly the reference's values -/
-theorem eval_value_iff (e : Expr) (_h : hasAssign e = false) (v : Val N) :
+theorem eval_value_iff (e : Expr) (_h : hasAssign e = false) (hm : Spec.modInRange G e = true) (v : Val N) :
     Impl.eval G e = .val v ↔ Spec.eval G e = .val v := by
-  rw [eval_eq_quirk_spec]
+  rw [eval_eq_quirk_spec G e hm]
   constructor
   · exact quirk_val _ v
   · intro h; rw [h]; rfl
@@ -438,6 +455,8 @@ def toyNum : Num Int where
   toInt := id
   ofInt := id
   text := fun a => if a = 10 then [49, 48] else [57]   -- "10" / "9"
+  inInt64 := fun _ => true
+  wideMod := fun a b => if b = 0 then none else some (Int.tmod a b)
 
 def toy : Cfg Int where
   C := toyNum
